@@ -68,6 +68,6 @@ def showTrace {σ : Type} (l : List (Out × Nat × σ)) : String :=
 
 /-- the poll trace of a byte link -/
 def byteTrace (link : String) (items : List ByteItem) : List (Out × Nat × LinkSt) :=
-  if link = "usart" then bytePollsSt usartStep LinkSt.init items else bytePollsSt serialStep LinkSt.init items
+  if link = "usart" then bytePollsSt usartStep LinkSt.init items else serialPollsSt LinkSt.init items
 
 end Ross.Codec
